@@ -379,6 +379,69 @@ func driveLongValues(c *driverCtx, prop string) {
 		}{}),
 		reflect.TypeOf(struct{}{}),
 	}
+	// empty values right after non-empty ones of the same kind (whatever a decoder reuses between items must be reset)
+	{
+		const ej = `{"type":"record","name":"EV","fields":[{"name":"mb","type":{"type":"map","values":"bytes"}},{"name":"ab","type":{"type":"array","items":"bytes"}},{"name":"as","type":{"type":"array","items":"string"}},{"name":"ml","type":{"type":"map","values":{"type":"array","items":"long"}}},{"name":"z","type":"long"}]}`
+		en, err := schemaNodeFromJSON([]byte(ej))
+		if err == nil {
+			type evT struct {
+				MB map[string][]byte  `json:"mb"`
+				AB [][]byte           `json:"ab"`
+				AS []string           `json:"as"`
+				ML map[string][]int64 `json:"ml"`
+				Z  int64              `json:"z"`
+			}
+			for split := 0; split < 2; split++ {
+				var b []byte
+				pat := [][]byte{{1, 2, 3}, {}, {4}, {}, {}, {5, 6}}
+				// map<bytes>
+				b = appendVar(b, int64(len(pat)))
+				for i, v := range pat {
+					b = appendVar(b, 2)
+					b = append(b, 'k', byte('a'+i))
+					b = appendVar(b, int64(len(v)))
+					b = append(b, v...)
+					if split == 1 && i == 2 { // end the block here and start another one
+						b[0] = byte(2 * 3)
+						b = appendVar(b, int64(len(pat)-3))
+					}
+				}
+				b = appendVar(b, 0)
+				for rep := 0; rep < 2; rep++ { // array<bytes>, array<string>
+					b = appendVar(b, int64(len(pat)))
+					for _, v := range pat {
+						b = appendVar(b, int64(len(v)))
+						b = append(b, v...)
+					}
+					b = appendVar(b, 0)
+				}
+				// map<array<long>>: a non-empty array, then empty ones
+				b = appendVar(b, 3)
+				for i, n := range []int{3, 0, 0} {
+					b = appendVar(b, 2)
+					b = append(b, 'm', byte('a'+i))
+					if n > 0 {
+						b = appendVar(b, int64(n))
+						for k := 0; k < n; k++ {
+							b = appendVar(b, int64(k+1))
+						}
+					}
+					b = appendVar(b, 0)
+				}
+				b = appendVar(b, 0)
+				b = appendVar(b, 99)
+				t := reflect.TypeOf(evT{})
+				for ci, codec := range codecs3 {
+					file := buildContainer([]byte(ej), codec, true, []byte("0123456789abcdef"), [][2]any{{1, b}})
+					r := readBack(t, file, readerKinds[ci], ci%2 == 0, -1, nil)
+					c.rec.NewCase()
+					c.rec.Emit(fmt.Sprintf("%s|empty-after-nonempty|split%d", prop, split), map[string]any{
+						"op": "rand_read", "mode": prop, "schema": en, "records": []any{byteList(b)}, "target": projectType(t), "codec": codec,
+						"delivered": orEmpty(r.delivered), "recheck": orEmpty(r.recheck), "err": errString(r.err), "panic": r.panicked})
+				}
+			}
+		}
+	}
 	for _, cnt := range []int{1, 2, 5, 64, 300} {
 		for sized := 0; sized < 2; sized++ {
 			recs := make([]any, 2)
